@@ -1,7 +1,7 @@
 #!/usr/bin/env python3
 """MANIFEST.setup_cmd: offline sanity + warm-up. Builds the lab once (warms the Go build cache),
 parses every specification module with SANY."""
-import os, subprocess, sys
+import os, re, subprocess, sys
 sys.path.insert(0, os.path.dirname(os.path.abspath(__file__)))
 import lib
 
@@ -17,6 +17,11 @@ def main():
             shutil.copyfile(os.path.join(lib.SPEC, f), os.path.join(wd, f))
         env = dict(os.environ, JAVA_TOOL_OPTIONS="-Djava.io.tmpdir=%s" % wd)
         for f in mods:
+            if re.search(r'^EXTENDS[^\n]*\bApalache\b', open(os.path.join(wd, f)).read(), re.M):
+                # typed modules for Apalache import its own standard module, which SANY does not know: they are parsed
+                # (and type-checked) by Apalache when C10's thorough tier runs
+                print("skipped (Apalache module):", f)
+                continue
             p = subprocess.run(["timeout", "120", "tla-sany", f], cwd=wd, env=env, stdout=subprocess.PIPE,
                                stderr=subprocess.STDOUT, text=True)
             if p.returncode != 0 or "*** Errors" in p.stdout or "Fatal errors" in p.stdout:
